@@ -46,10 +46,14 @@ var c16funcs = []*bigslice.FuncValue{
 	bigslice.Func(func(x interface{}, y c16Iface) bigslice.Slice { return bigslice.Const(1, []int{1}) }),
 	bigslice.Func(func(r *exec.Result, s bigslice.Slice, n int64) bigslice.Slice { return bigslice.Const(1, []int{1}) }),
 	bigslice.Func(func(f float64, b bool, u uint8, bs []byte) bigslice.Slice { return bigslice.Const(1, []int{1}) }),
+	// several parameters of one composite type (a decoder must not let one argument show through another)
+	bigslice.Func(func(a, b, c []int) bigslice.Slice { return bigslice.Const(1, []int{len(a) + len(b) + len(c)}) }),
+	bigslice.Func(func(s, t c16St, m, n map[string]int) bigslice.Slice { return bigslice.Const(1, []int{s.A + t.A}) }),
+	bigslice.Func(func(p, q *c16St, bs, cs []byte) bigslice.Slice { return bigslice.Const(1, []int{1}) }),
 }
 
 // paramKinds[f][i]: the dispatch class the model needs: o(ther) | i(face) | r(esultptr)
-var c16params = []string{"oo", "oo", "oo", "ii", "rio", "oooo"}
+var c16params = []string{"oo", "oo", "oo", "ii", "rio", "oooo", "ooo", "oooo", "oooo"}
 
 func init() {
 	gob.Register(c16Impl{})
